@@ -1,3 +1,1203 @@
-(* RefineProofs: placeholder, to be filled in *)
+(* RefineProofs (C03 / C19): the unix back end gives exactly the answers of the ideal channel model.
+   A simulation relation R between Unix states and Ideal states is established initially and preserved by
+   every operation, with equal outcomes. *)
 From Coq Require Import List Arith Lia Bool ZArith.
-From IPC Require Import K.
+From IPC Require Import K KProofs Prog Ideal Unix.
+Import ListNotations.
+
+(* ------------------------------------------------------------------------------------------ *)
+(* association tables: lookup / update / weighted totals                                        *)
+(* ------------------------------------------------------------------------------------------ *)
+Section Tab.
+Context {B : Type}.
+Implicit Types (l : list (nat * B)) (h : nat) (v : B).
+
+Lemma lookup_app : forall l l' h,
+  lookup (l ++ l') h = match lookup l h with Some v => Some v | None => lookup l' h end.
+Proof.
+  induction l as [|[x w] t IH]; intros l' h; cbn [lookup app]; auto.
+  destruct (Nat.eqb x h); auto.
+Qed.
+
+Lemma lookup_In : forall l h v, lookup l h = Some v -> In (h, v) l.
+Proof.
+  induction l as [|[x w] t IH]; intros h v H; cbn [lookup] in H; [discriminate|].
+  destruct (Nat.eqb_spec x h) as [->|Hne].
+  - injection H as ->. now left.
+  - right. auto.
+Qed.
+
+Lemma lookup_none : forall l h, lookup l h = None -> forall v, ~ In (h, v) l.
+Proof.
+  induction l as [|[x w] t IH]; intros h H v Hin; cbn [lookup] in H; [contradiction|].
+  destruct (Nat.eqb_spec x h) as [->|Hne]; [discriminate|].
+  destruct Hin as [E|Hin]; [injection E as -> _; congruence|]. eapply IH; eauto.
+Qed.
+
+Lemma notin_lookup : forall l h, (forall v, ~ In (h, v) l) -> lookup l h = None.
+Proof.
+  intros l h H. destruct (lookup l h) as [v|] eqn:E; auto.
+  exfalso. apply (H v). now apply lookup_In.
+Qed.
+
+Lemma In_lookup_nd : forall l h v, NoDup (map fst l) -> In (h, v) l -> lookup l h = Some v.
+Proof.
+  induction l as [|[x w] t IH]; intros h v Hnd Hin; [contradiction|].
+  cbn [map fst] in Hnd. inversion Hnd as [|? ? Hx Hnd']; subst.
+  cbn [lookup]. destruct Hin as [E|Hin].
+  - injection E as -> ->. now rewrite Nat.eqb_refl.
+  - destruct (Nat.eqb_spec x h) as [->|Hne]; auto.
+    exfalso. apply Hx. change h with (fst (h, v)). now apply in_map.
+Qed.
+
+Lemma map_fst_update : forall l h v, map fst (update l h v) = map fst l.
+Proof.
+  induction l as [|[x w] t IH]; intros h v; cbn [update map]; auto.
+  destruct (Nat.eqb x h); cbn [map fst]; auto. now rewrite IH.
+Qed.
+
+Lemma lookup_update_eq : forall l h v w, lookup l h = Some w -> lookup (update l h v) h = Some v.
+Proof.
+  induction l as [|[x w0] t IH]; intros h v w H; cbn [lookup update] in *; [discriminate|].
+  destruct (Nat.eqb x h) eqn:E; cbn [lookup]; rewrite E; eauto.
+Qed.
+
+Lemma lookup_update_neq : forall l h h' v, h' <> h -> lookup (update l h v) h' = lookup l h'.
+Proof.
+  induction l as [|[x w0] t IH]; intros h h' v Hne; cbn [lookup update]; auto.
+  destruct (Nat.eqb_spec x h) as [->|Hx]; cbn [lookup].
+  - destruct (Nat.eqb_spec h h'); [congruence|auto].
+  - destruct (Nat.eqb x h'); auto.
+Qed.
+
+Lemma In_update : forall l h v x w, In (x, w) (update l h v) -> In (x, w) l \/ (x = h /\ w = v).
+Proof.
+  induction l as [|[y w0] t IH]; intros h v x w H; cbn [update] in H; [contradiction|].
+  destruct (Nat.eqb_spec y h) as [->|Hy].
+  - destruct H as [E|H]; [injection E as <- <-; auto|]. left. now right.
+  - destruct H as [E|H]; [left; now left|]. apply IH in H. destruct H; auto. left. now right.
+Qed.
+
+Fixpoint tot (w : B -> nat) (l : list (nat * B)) : nat :=
+  match l with [] => 0 | (_, v) :: t => w v + tot w t end.
+
+Lemma tot_app : forall w l l', tot w (l ++ l') = tot w l + tot w l'.
+Proof. induction l as [|[x v] t IH]; intros l'; cbn [tot app]; auto. rewrite IH. lia. Qed.
+
+Lemma tot_update : forall w l h v v', lookup l h = Some v ->
+  tot w (update l h v') + w v = tot w l + w v'.
+Proof.
+  induction l as [|[x v0] t IH]; intros h v v' H; cbn [lookup update] in *; [discriminate|].
+  destruct (Nat.eqb x h); cbn [tot].
+  - injection H as ->. lia.
+  - specialize (IH _ _ v' H). lia.
+Qed.
+
+Lemma tot_In : forall w l x v, In (x, v) l -> w v <= tot w l.
+Proof.
+  induction l as [|[y v0] t IH]; intros x v H; [contradiction|]. cbn [tot].
+  destruct H as [E|H].
+  - injection E as E1 E2. subst. lia.
+  - specialize (IH _ _ H). lia.
+Qed.
+
+Lemma tot_pos : forall w l, 1 <= tot w l -> exists x v, In (x, v) l /\ 1 <= w v.
+Proof.
+  induction l as [|[y v0] t IH]; cbn [tot]; intros H; [lia|].
+  destruct (w v0) eqn:E.
+  - destruct IH as (x & v & Hin & Hw); [lia|]. exists x, v. split; auto. now right.
+  - exists y, v0. split; [now left|lia].
+Qed.
+
+Lemma NoDup_fst_snoc : forall l n v, NoDup (map fst l) -> (forall x w, In (x, w) l -> x < n) ->
+  NoDup (map fst (l ++ [(n, v)])).
+Proof.
+  induction l as [|[y v0] t IH]; intros n v Hnd Hlt; cbn [app map fst].
+  - constructor; [intros []|constructor].
+  - cbn [map fst] in Hnd. inversion Hnd as [|? ? Hy Hnd']; subst. constructor.
+    + rewrite map_app, in_app_iff. cbn [map fst In]. intros [H|[H|[]]]; [auto|].
+      specialize (Hlt y v0 (or_introl eq_refl)). lia.
+    + apply IH; auto. intros x w H. apply (Hlt x w). now right.
+Qed.
+
+Lemma In_snoc_lt : forall l n v m, (forall x w, In (x, w) l -> x < n) -> n < m ->
+  forall x w, In (x, w) (l ++ [(n, v)]) -> x < m.
+Proof.
+  intros l n v m H Hm x w Hin. apply in_app_iff in Hin. destruct Hin as [Hin|[E|[]]].
+  - specialize (H _ _ Hin). lia.
+  - injection E as <- _. lia.
+Qed.
+End Tab.
+
+(* ------------------------------------------------------------------------------------------ *)
+(* descriptor table and reference lists                                                         *)
+(* ------------------------------------------------------------------------------------------ *)
+Ltac nlia := unfold fd, aid, hid in *; lia.
+Lemma lookup_remove_fd_neq : forall t f f', f' <> f -> lookup (remove_fd f t) f' = lookup t f'.
+Proof.
+  induction t as [|[x r] t IH]; intros f f' Hne; cbn [remove_fd lookup]; auto.
+  destruct (Nat.eqb_spec x f) as [->|Hx].
+  - destruct (Nat.eqb_spec f f'); [congruence|auto].
+  - cbn [lookup]. destruct (Nat.eqb x f'); auto.
+Qed.
+
+Lemma In_remove_fd : forall t f e, In e (remove_fd f t) -> In e t.
+Proof.
+  induction t as [|[x r] t IH]; intros f e H; cbn [remove_fd] in H; auto.
+  destruct (Nat.eqb x f); [now right|]. destruct H as [H|H]; [now left|right; eauto].
+Qed.
+
+Lemma NoDup_remove_fd : forall t f, NoDup (map fst t) -> NoDup (map fst (remove_fd f t)).
+Proof.
+  induction t as [|[x r] t IH]; intros f H; cbn [remove_fd map fst] in *; auto.
+  inversion H as [|? ? Hx Hnd]; subst. destruct (Nat.eqb x f); auto.
+  cbn [map fst]. constructor; auto. intros Hin. apply Hx.
+  apply in_map_iff in Hin. destruct Hin as ([y s] & E & Hin). cbn [fst] in E. subst y.
+  apply In_remove_fd in Hin. change x with (fst (x, s)). now apply in_map.
+Qed.
+
+Lemma lookup_remove_fd_eq : forall t f, NoDup (map fst t) -> lookup (remove_fd f t) f = None.
+Proof.
+  induction t as [|[x r] t IH]; intros f H; cbn [remove_fd map fst] in *; auto.
+  inversion H as [|? ? Hx Hnd]; subst. destruct (Nat.eqb_spec x f) as [->|Hne].
+  - apply notin_lookup. intros v Hin. apply Hx. change f with (fst (f, v)). now apply in_map.
+  - cbn [lookup]. destruct (Nat.eqb_spec x f); [congruence|auto].
+Qed.
+
+Definition ind (r r' : ref) : nat := if ref_dec r r' then 1 else 0.
+
+Lemma count_remove_fd : forall t f r r', lookup t f = Some r ->
+  count_occ ref_dec (map snd (remove_fd f t)) r' + ind r r' = count_occ ref_dec (map snd t) r'.
+Proof.
+  unfold ind. induction t as [|[x s] t IH]; intros f r r' H; cbn [lookup remove_fd] in *; [discriminate|].
+  destruct (Nat.eqb x f).
+  - injection H as ->. cbn [map snd count_occ]. destruct (ref_dec r r'); nlia.
+  - cbn [map snd count_occ]. specialize (IH _ _ r' H). destruct (ref_dec s r'); nlia.
+Qed.
+
+Lemma count_remove_one_neq : forall r l r', r <> r' ->
+  count_occ ref_dec (remove_one r l) r' = count_occ ref_dec l r'.
+Proof.
+  induction l as [|x t IH]; intros r' Hne; cbn [remove_one count_occ]; auto.
+  destruct (ref_dec r x) as [<-|Hx].
+  - destruct (ref_dec r r'); [congruence|auto].
+  - cbn [count_occ]. rewrite IH by auto. reflexivity.
+Qed.
+
+Lemma count_remove_one_eq : forall r l, 1 <= count_occ ref_dec l r ->
+  S (count_occ ref_dec (remove_one r l) r) = count_occ ref_dec l r.
+Proof.
+  induction l as [|x t IH]; cbn [remove_one count_occ]; intros H; [lia|].
+  destruct (ref_dec r x) as [<-|Hx].
+  - destruct (ref_dec r r); [auto|congruence].
+  - cbn [count_occ]. destruct (ref_dec x r); [congruence|]. auto.
+Qed.
+
+Lemma count_remove_one : forall r l r', 1 <= count_occ ref_dec l r ->
+  count_occ ref_dec (remove_one r l) r' + ind r r' = count_occ ref_dec l r'.
+Proof.
+  intros r l r' H. unfold ind. destruct (ref_dec r r') as [<-|Hne].
+  - pose proof (count_remove_one_eq r l H). lia.
+  - rewrite count_remove_one_neq by auto. lia.
+Qed.
+
+Lemma lookup_count : forall (t : list (fd * ref)) f r, lookup t f = Some r -> 1 <= count_occ ref_dec (map snd t) r.
+Proof.
+  intros t f r H. apply lookup_In in H. apply (in_map snd) in H. cbn [snd] in H.
+  apply (count_occ_In ref_dec) in H. nlia.
+Qed.
+
+Lemma count_lookup : forall (t : list (fd * ref)) r, NoDup (map fst t) -> 1 <= count_occ ref_dec (map snd t) r ->
+  exists f, lookup t f = Some r.
+Proof.
+  intros t r Hnd H. assert (Hin : In r (map snd t)) by (apply (count_occ_In ref_dec); lia).
+  apply in_map_iff in Hin. destruct Hin as ([f s] & E & Hin). cbn [snd] in E. subst s.
+  exists f. now apply In_lookup_nd.
+Qed.
+
+(* ------------------------------------------------------------------------------------------ *)
+(* weights: how many handles / arcs / pending owners refer to an arc or a descriptor             *)
+(* ------------------------------------------------------------------------------------------ *)
+Definition wUS (a : nat) (o : uobj) : nat := match o with US a' => if Nat.eqb a' a then 1 else 0 | _ => 0 end.
+Definition wRX (f : nat) (o : uobj) : nat := match o with UR (Some f') => if Nat.eqb f' f then 1 else 0 | _ => 0 end.
+Definition wAF (f : nat) (e : fd * nat) : nat := match e with (f', S _) => if Nat.eqb f' f then 1 else 0 | _ => 0 end.
+Definition wIS (c : nat) (o : iobj) : nat := match o with IS c' => if Nat.eqb c' c then 1 else 0 | _ => 0 end.
+
+Fixpoint cntA (a : nat) (os : list owned) : nat :=
+  match os with [] => 0 | OwnArc a' :: t => (if Nat.eqb a' a then 1 else 0) + cntA a t | OwnFd _ :: t => cntA a t end.
+Fixpoint cntF (f : nat) (os : list owned) : nat :=
+  match os with [] => 0 | OwnFd f' :: t => (if Nat.eqb f' f then 1 else 0) + cntF f t | OwnArc _ :: t => cntF f t end.
+
+Lemma cntA_app : forall a l l', cntA a (l ++ l') = cntA a l + cntA a l'.
+Proof. induction l as [|[b|g] t IH]; intros l'; cbn [cntA app]; auto. rewrite IH. lia. Qed.
+Lemma cntF_app : forall f l l', cntF f (l ++ l') = cntF f l + cntF f l'.
+Proof. induction l as [|[b|g] t IH]; intros l'; cbn [cntF app]; auto. rewrite IH. lia. Qed.
+
+Lemma wUS_self : forall a, wUS a (US a) = 1.
+Proof. intros a. cbn [wUS]. now rewrite Nat.eqb_refl. Qed.
+Lemma wRX_self : forall f, wRX f (UR (Some f)) = 1.
+Proof. intros f. cbn [wRX]. now rewrite Nat.eqb_refl. Qed.
+Lemma wAF_self : forall f n, wAF f (f, S n) = 1.
+Proof. intros f n. cbn [wAF]. now rewrite Nat.eqb_refl. Qed.
+Lemma wIS_self : forall c, wIS c (IS c) = 1.
+Proof. intros c. cbn [wIS]. now rewrite Nat.eqb_refl. Qed.
+
+Lemma tot_US_handle : forall a us, 1 <= tot (wUS a) us -> exists x, In (x, US a) us.
+Proof.
+  intros a us H. apply tot_pos in H. destruct H as (x & v & Hin & Hw). exists x.
+  destruct v as [a'|o|]; cbn [wUS] in Hw; try lia.
+  destruct (Nat.eqb_spec a' a); [subst; auto|lia].
+Qed.
+
+Lemma tot_RX_handle : forall f us, 1 <= tot (wRX f) us -> exists x, In (x, UR (Some f)) us.
+Proof.
+  intros f us H. apply tot_pos in H. destruct H as (x & v & Hin & Hw). exists x.
+  destruct v as [a'|[g|]|]; cbn [wRX] in Hw; try lia.
+  destruct (Nat.eqb_spec g f); [subst; auto|lia].
+Qed.
+
+Lemma tot_AF_arc : forall f (A : list (aid * (fd * nat))), 1 <= tot (wAF f) A -> exists a n, In (a, (f, S n)) A.
+Proof.
+  intros f A H. apply tot_pos in H. destruct H as (a & [g [|n]] & Hin & Hw); cbn [wAF] in Hw; try lia.
+  exists a, n. destruct (Nat.eqb_spec g f); [subst; auto|lia].
+Qed.
+
+Lemma tot_IS_handle : forall c js, 1 <= tot (wIS c) js -> exists x, In (x, IS c) js.
+Proof.
+  intros c js H. apply tot_pos in H. destruct H as (x & v & Hin & Hw). exists x.
+  destruct v as [c'|c'|]; cbn [wIS] in Hw; try lia.
+  destruct (Nat.eqb_spec c' c); [subst; auto|lia].
+Qed.
+
+Lemma handle_tot_US : forall a us x, In (x, US a) us -> 1 <= tot (wUS a) us.
+Proof. intros a us x H. apply (tot_In (wUS a)) in H. now rewrite wUS_self in H. Qed.
+Lemma handle_tot_RX : forall f us x, In (x, UR (Some f)) us -> 1 <= tot (wRX f) us.
+Proof. intros f us x H. apply (tot_In (wRX f)) in H. now rewrite wRX_self in H. Qed.
+Lemma arc_tot_AF : forall f (A : list (aid * (fd * nat))) a n, In (a, (f, S n)) A -> 1 <= tot (wAF f) A.
+Proof. intros f A a n H. apply (tot_In (wAF f)) in H. now rewrite wAF_self in H. Qed.
+Lemma handle_tot_IS : forall c js x, In (x, IS c) js -> 1 <= tot (wIS c) js.
+Proof. intros c js x H. apply (tot_In (wIS c)) in H. now rewrite wIS_self in H. Qed.
+
+(* ------------------------------------------------------------------------------------------ *)
+(* correspondence of handle tables                                                              *)
+(* ------------------------------------------------------------------------------------------ *)
+Definition obj_rel (A : list (aid * (fd * nat))) (T : list (fd * ref)) (uo : uobj) (io : iobj) : Prop :=
+  match uo, io with
+  | US a, IS c => exists f n, lookup A a = Some (f, S n) /\ lookup T f = Some (RS c)
+  | UR (Some f), IR c => lookup T f = Some (RR c)
+  | UR None, IGone => True
+  | UGone, IGone => True
+  | _, _ => False
+  end.
+Definition hrel A T (p : nat * uobj) (q : nat * iobj) : Prop := fst p = fst q /\ obj_rel A T (snd p) (snd q).
+
+Lemma F2_lookup A T : forall us js, Forall2 (hrel A T) us js -> forall h,
+  match lookup us h, lookup js h with
+  | Some uo, Some io => obj_rel A T uo io
+  | None, None => True
+  | _, _ => False
+  end.
+Proof.
+  induction 1 as [|[x uo] [y io] us js [Hf Ho] HF IH]; intros h; cbn [lookup]; auto.
+  cbn [fst snd] in *. subst y. destruct (Nat.eqb x h); [exact Ho|apply IH].
+Qed.
+
+Lemma F2_update A T : forall us js, Forall2 (hrel A T) us js -> forall h uo io, obj_rel A T uo io ->
+  Forall2 (hrel A T) (update us h uo) (update js h io).
+Proof.
+  induction 1 as [|[x uo0] [y io0] us js [Hf Ho] HF IH]; intros h uo io Hr; cbn [update]; auto.
+  cbn [fst snd] in *. subst y. destruct (Nat.eqb x h); constructor; auto; split; auto.
+Qed.
+
+Lemma F2_mono A T A' T' : forall us js, Forall2 (hrel A T) us js ->
+  (forall x uo io, In (x, uo) us -> obj_rel A T uo io -> obj_rel A' T' uo io) ->
+  Forall2 (hrel A' T') us js.
+Proof.
+  induction 1 as [|[x uo] [y io] us js [Hf Ho] HF IH]; intros Hm; constructor.
+  - split; auto. cbn [snd] in *. apply (Hm x); auto. now left.
+  - apply IH. intros x0 uo0 io0 Hin. apply (Hm x0). now right.
+Qed.
+
+Lemma F2_In A T : forall us js, Forall2 (hrel A T) us js -> forall x uo, In (x, uo) us ->
+  exists io, In (x, io) js /\ obj_rel A T uo io.
+Proof.
+  induction 1 as [|[x0 uo0] [y io0] us js [Hf Ho] HF IH]; intros x uo Hin; [contradiction|].
+  cbn [fst snd] in *. subst y. destruct Hin as [E|Hin].
+  - injection E as -> ->. exists io0. split; auto. now left.
+  - destruct (IH _ _ Hin) as (io & Hi & Hr). exists io. split; auto. now right.
+Qed.
+
+Lemma F2_In_r A T : forall us js, Forall2 (hrel A T) us js -> forall x io, In (x, io) js ->
+  exists uo, In (x, uo) us /\ obj_rel A T uo io.
+Proof.
+  induction 1 as [|[x0 uo0] [y io0] us js [Hf Ho] HF IH]; intros x io Hin; [contradiction|].
+  cbn [fst snd] in *. subst y. destruct Hin as [E|Hin].
+  - injection E as -> ->. exists uo0. split; auto. now left.
+  - destruct (IH _ _ Hin) as (uo & Hi & Hr). exists uo. split; auto. now right.
+Qed.
+
+(* ------------------------------------------------------------------------------------------ *)
+(* the simulation relation, generalised by the owners pending in a `channels` vector            *)
+(* ------------------------------------------------------------------------------------------ *)
+Record Rg (os : list owned) (u : ust) (i : ist) : Prop := {
+  r_chans : uchans u = chans (ik i);
+  r_next : unext u = inext i;
+  r_h : Forall2 (hrel (arcs u) (fdt u)) (uh u) (ih i);
+  r_rr : forall c, count_occ ref_dec (map snd (fdt u)) (RR c) = count_occ ref_dec (held (ik i)) (RR c);
+  r_rs : forall c, count_occ ref_dec (held (ik i)) (RS c) = tot (wIS c) (ih i);
+  r_fd_nd : NoDup (map fst (fdt u));
+  r_fd_lt : forall f r, In (f, r) (fdt u) -> f < nextfd u;
+  r_arc_nd : NoDup (map fst (arcs u));
+  r_arc_lt : forall a v, In (a, v) (arcs u) -> a < anext u;
+  r_cnt : forall a f n, lookup (arcs u) a = Some (f, n) -> n = tot (wUS a) (uh u) + cntA a os;
+  r_dis : forall f, tot (wAF f) (arcs u) + tot (wRX f) (uh u) + cntF f os <= 1;
+  r_stray : forall f c, lookup (fdt u) f = Some (RS c) -> 1 <= tot (wAF f) (arcs u);
+  r_ownA : forall a, 1 <= cntA a os -> 1 <= tot (wUS a) (uh u)
+}.
+
+Definition R0 (u : ust) (i : ist) : Prop := Rg [] u i.
+
+Lemma Rg_ext os u i u' i' : Rg os u i ->
+  uchans u' = chans (ik i') -> fdt u' = fdt u -> nextfd u' = nextfd u -> arcs u' = arcs u -> anext u' = anext u ->
+  uh u' = uh u -> unext u' = unext u -> ih i' = ih i -> inext i' = inext i ->
+  (forall c, count_occ ref_dec (held (ik i')) (RR c) = count_occ ref_dec (held (ik i)) (RR c)) ->
+  (forall c, count_occ ref_dec (held (ik i')) (RS c) = count_occ ref_dec (held (ik i)) (RS c)) ->
+  Rg os u' i'.
+Proof.
+  intros [] Hc Hf Hn Ha Han Hu Hun Hi Hin Hrr Hrs.
+  constructor; rewrite ?Hf, ?Hn, ?Ha, ?Han, ?Hu, ?Hun, ?Hi, ?Hin; auto.
+  - intros c. rewrite Hrr. auto.
+  - intros c. rewrite Hrs. auto.
+Qed.
+
+Lemma arc_handle os u i a f n : Rg os u i -> lookup (arcs u) a = Some (f, S n) -> 1 <= tot (wUS a) (uh u).
+Proof.
+  intros H Hl. pose proof (r_cnt _ _ _ H _ _ _ Hl) as Hc.
+  destruct (cntA a os) eqn:E; [lia|]. apply (r_ownA _ _ _ H). lia.
+Qed.
+
+Lemma arc_open os u i a f n : Rg os u i -> lookup (arcs u) a = Some (f, S n) ->
+  exists c, lookup (fdt u) f = Some (RS c).
+Proof.
+  intros H Hl. pose proof (arc_handle _ _ _ _ _ _ H Hl) as Ht.
+  apply tot_US_handle in Ht. destruct Ht as (x & Hin).
+  destruct (F2_In _ _ _ _ (r_h _ _ _ H) _ _ Hin) as (io & _ & Hr).
+  destruct io as [c|c|]; cbn [obj_rel] in Hr; try contradiction.
+  destruct Hr as (f' & n' & Hl' & Hf). rewrite Hl in Hl'. injection Hl' as <- _. eauto.
+Qed.
+
+Lemma fresh_fd os u i g : Rg os u i -> nextfd u <= g ->
+  tot (wAF g) (arcs u) = 0 /\ tot (wRX g) (uh u) = 0.
+Proof.
+  intros H Hg. split.
+  - destruct (tot (wAF g) (arcs u)) eqn:E; auto. exfalso.
+    assert (Ht : 1 <= tot (wAF g) (arcs u)) by lia.
+    apply tot_AF_arc in Ht. destruct Ht as (a & n0 & Hin).
+    apply In_lookup_nd in Hin; [|apply (r_arc_nd _ _ _ H)].
+    destruct (arc_open _ _ _ _ _ _ H Hin) as (c & Hl). apply lookup_In in Hl.
+    apply (r_fd_lt _ _ _ H) in Hl. lia.
+  - destruct (tot (wRX g) (uh u)) eqn:E; auto. exfalso.
+    assert (Ht : 1 <= tot (wRX g) (uh u)) by lia.
+    apply tot_RX_handle in Ht. destruct Ht as (x & Hin).
+    destruct (F2_In _ _ _ _ (r_h _ _ _ H) _ _ Hin) as (io & _ & Hr).
+    destruct io as [c|c|]; cbn [obj_rel] in Hr; try contradiction.
+    apply lookup_In in Hr. apply (r_fd_lt _ _ _ H) in Hr. lia.
+Qed.
+
+Lemma fresh_fd_lookup os u i g : Rg os u i -> nextfd u <= g -> lookup (fdt u) g = None.
+Proof.
+  intros H Hg. apply notin_lookup. intros v Hin. apply (r_fd_lt _ _ _ H) in Hin. lia.
+Qed.
+
+Lemma fresh_arc os u i b : Rg os u i -> anext u <= b ->
+  lookup (arcs u) b = None /\ tot (wUS b) (uh u) = 0.
+Proof.
+  intros H Hb.
+  assert (Hn : lookup (arcs u) b = None).
+  { apply notin_lookup. intros v Hin. apply (r_arc_lt _ _ _ H) in Hin. lia. }
+  split; auto.
+  destruct (tot (wUS b) (uh u)) eqn:E; auto. exfalso.
+  assert (Ht : 1 <= tot (wUS b) (uh u)) by lia.
+  apply tot_US_handle in Ht. destruct Ht as (x & Hin).
+  destruct (F2_In _ _ _ _ (r_h _ _ _ H) _ _ Hin) as (io & _ & Hr).
+  destruct io as [c|c|]; cbn [obj_rel] in Hr; try contradiction.
+  destruct Hr as (f' & n' & Hl' & _). congruence.
+Qed.
+
+(* ------------------------------------------------------------------------------------------ *)
+(* the ideal kernel state stays stable (gc has nothing to do except right after a close)        *)
+(* ------------------------------------------------------------------------------------------ *)
+Lemma stable_held : forall k k', chans k' = chans k ->
+  (forall c, count_occ ref_dec (held k) (RR c) <= count_occ ref_dec (held k') (RR c)) ->
+  k_stable k -> k_stable k'.
+Proof.
+  intros k k' Hc Hh St c ch Hn Hd. rewrite Hc in Hn. pose proof (St c ch Hn Hd) as Hs.
+  unfold refs, inflight in *. rewrite Hc. specialize (Hh c). lia.
+Qed.
+
+Lemma k_new_stable : forall k, k_stable k ->
+  k_stable {| chans := chans k ++ [{| q := []; dead := false |}];
+              held := RS (length (chans k)) :: RR (length (chans k)) :: held k |}.
+Proof.
+  intros k St j ch' Hn Hd. cbn [chans] in Hn.
+  unfold refs, inflight. cbn [chans held]. rewrite flat_map_app, count_occ_app.
+  cbn [flat_map live_rights dead q app count_occ].
+  destruct (ref_dec (RS (length (chans k))) (RR j)) as [E|_]; [discriminate|].
+  destruct (Nat.lt_ge_cases j (length (chans k))) as [Hlt|Hge].
+  - rewrite nth_error_app1 in Hn by auto. pose proof (St j ch' Hn Hd) as Hs.
+    unfold refs, inflight in Hs. destruct (ref_dec (RR (length (chans k))) (RR j)); lia.
+  - rewrite nth_error_app2 in Hn by auto.
+    destruct (j - length (chans k)) as [|d] eqn:E; [|destruct d; discriminate].
+    destruct (ref_dec (RR (length (chans k))) (RR j)) as [_|Hne]; [lia|].
+    exfalso. apply Hne. f_equal. lia.
+Qed.
+
+Lemma refs_send : forall k c m k' r, k_send k c m = Some k' ->
+  refs k' r = refs k r + count_occ ref_dec (m_rights m) r.
+Proof.
+  intros k c m k' r H. apply k_send_some in H. destruct H as (ch & Hn & Hd & ->).
+  pose proof (refs_set_nth k c ch {| q := q ch ++ [m]; dead := false |} (held k) r Hn) as He.
+  unfold live_rights in He. cbn [dead q] in He. rewrite Hd in He.
+  rewrite flat_map_app, count_occ_app in He. cbn [flat_map] in He. rewrite app_nil_r in He.
+  unfold refs at 2. lia.
+Qed.
+
+Lemma k_send_stable : forall k c m k', k_send k c m = Some k' -> k_stable k -> k_stable k'.
+Proof.
+  intros k c m k' H St j ch' Hn Hd. rewrite (refs_send _ _ _ _ (RR j) H).
+  apply k_send_some in H. destruct H as (ch & Hc & Hdc & ->). cbn [chans] in Hn.
+  destruct (Nat.eq_dec c j) as [<-|Hne].
+  - pose proof (St c ch Hc Hdc). lia.
+  - rewrite nth_error_set_nth_neq in Hn by auto. pose proof (St j ch' Hn Hd). lia.
+Qed.
+
+Lemma k_recv_stable : forall k c m k', k_recv k c = KMsg m k' -> k_stable k -> k_stable k'.
+Proof.
+  intros k c m k' H St j ch' Hn Hd. apply k_recv_msg in H.
+  destruct H as (ch & rest & Hc & Hq & ->). cbn [chans] in Hn.
+  assert (Hle : refs k (RR j) <=
+    refs {| chans := set_nth (chans k) c {| q := rest; dead := dead ch |}; held := m_rights m ++ held k |} (RR j)).
+  { pose proof (refs_set_nth k c ch {| q := rest; dead := dead ch |} (m_rights m ++ held k) (RR j) Hc) as He.
+    unfold live_rights in He. cbn [dead q] in He. rewrite Hq in He.
+    rewrite count_occ_app in He. unfold refs at 1.
+    destruct (dead ch); cbn [flat_map count_occ] in He; rewrite ?count_occ_app in He; lia. }
+  destruct (Nat.eq_dec c j) as [<-|Hne].
+  - rewrite nth_error_set_nth_eq in Hn by (eapply nth_error_lt; eauto).
+    injection Hn as <-. cbn [dead] in Hd. pose proof (St c ch Hc Hd). lia.
+  - rewrite nth_error_set_nth_neq in Hn by auto. pose proof (St j ch' Hn Hd). lia.
+Qed.
+
+Lemma close_moved_stable : forall rs k, k_stable k -> k_stable (close_moved k rs).
+Proof.
+  induction rs as [|[c|c|o] t IH]; intros k St; cbn [close_moved]; auto.
+  apply IH. unfold k_close. apply gc_stable.
+Qed.
+
+Lemma get_chan_ext : forall k k' c, chans k = chans k' -> get_chan k c = get_chan k' c.
+Proof. intros k k' c H. unfold get_chan. now rewrite H. Qed.
+
+(* ------------------------------------------------------------------------------------------ *)
+(* installing a fresh sender / receiver endpoint (socketpair, received rights)                   *)
+(* ------------------------------------------------------------------------------------------ *)
+Ltac prj := cbn [uchans fdt nextfd arcs anext uh unext utrace ik ih inext chans held].
+Ltac prj_in H := cbn [uchans fdt nextfd arcs anext uh unext utrace ik ih inext chans held] in H.
+
+Lemma add_tx u i c tr : R0 u i ->
+  R0 {| uchans := uchans u; fdt := fdt u ++ [(nextfd u, RS c)]; nextfd := S (nextfd u);
+       arcs := arcs u ++ [(anext u, (nextfd u, 1))]; anext := S (anext u);
+       uh := uh u ++ [(unext u, US (anext u))]; unext := S (unext u); utrace := tr |}
+    {| ik := {| chans := chans (ik i); held := RS c :: held (ik i) |};
+       ih := ih i ++ [(inext i, IS c)]; inext := S (inext i) |}.
+Proof.
+  intros H.
+  destruct (fresh_fd _ _ _ (nextfd u) H (le_n _)) as [Faf Frx].
+  pose proof (fresh_fd_lookup _ _ _ (nextfd u) H (le_n _)) as Ffd.
+  destruct (fresh_arc _ _ _ (anext u) H (le_n _)) as [Fa Fus].
+  constructor; prj.
+  - apply (r_chans _ _ _ H).
+  - f_equal. apply (r_next _ _ _ H).
+  - apply Forall2_app.
+    + eapply F2_mono; [apply (r_h _ _ _ H)|]. intros x uo io Hin Hr.
+      destruct uo as [a|[f|]|], io as [c'|c'|]; cbn [obj_rel] in *; auto.
+      * destruct Hr as (f & n & Hl & Hf). exists f, n. rewrite !lookup_app, Hl, Hf. auto.
+      * rewrite lookup_app, Hr. auto.
+    + constructor; [|constructor]. split; cbn [fst snd]; [apply (r_next _ _ _ H)|].
+      cbn [obj_rel]. exists (nextfd u), 0. rewrite !lookup_app, Fa, Ffd. cbn [lookup].
+      rewrite !Nat.eqb_refl. auto.
+  - intros c'. rewrite map_app, count_occ_app. cbn [map snd count_occ].
+    destruct (ref_dec (RS c) (RR c')); [discriminate|]. rewrite <- (r_rr _ _ _ H). nlia.
+  - intros c'. cbn [count_occ]. rewrite tot_app. cbn [tot wIS]. rewrite <- (r_rs _ _ _ H).
+    destruct (Nat.eqb_spec c c') as [E0|Hne]; destruct (ref_dec (RS c) (RS c')) as [E|E]; try lia; exfalso; congruence.
+  - apply NoDup_fst_snoc; [apply (r_fd_nd _ _ _ H)|apply (r_fd_lt _ _ _ H)].
+  - eapply In_snoc_lt; [apply (r_fd_lt _ _ _ H)|lia].
+  - apply NoDup_fst_snoc; [apply (r_arc_nd _ _ _ H)|apply (r_arc_lt _ _ _ H)].
+  - eapply In_snoc_lt; [apply (r_arc_lt _ _ _ H)|lia].
+  - intros a f n Hl. cbn [cntA]. rewrite lookup_app in Hl. rewrite tot_app. cbn [tot wUS].
+    destruct (lookup (arcs u) a) as [v|] eqn:E.
+    + injection Hl as ->. pose proof (r_cnt _ _ _ H _ _ _ E) as Hc. cbn [cntA] in Hc.
+      assert (a < anext u) by (apply lookup_In in E; apply (r_arc_lt _ _ _ H) in E; auto).
+      destruct (Nat.eqb_spec (anext u) a); lia.
+    + cbn [lookup] in Hl. destruct (Nat.eqb_spec (anext u) a) as [<-|]; [|discriminate].
+      injection Hl as <- <-. rewrite Fus. lia.
+  - intros f. cbn [cntF]. rewrite !tot_app. cbn [tot wAF wUS wRX].
+    pose proof (r_dis _ _ _ H f) as Hd. cbn [cntF] in Hd.
+    destruct (Nat.eqb_spec (nextfd u) f) as [<-|]; lia.
+  - intros f c' Hl. rewrite lookup_app in Hl. rewrite tot_app.
+    destruct (lookup (fdt u) f) eqn:E.
+    + injection Hl as ->. pose proof (r_stray _ _ _ H _ _ E). lia.
+    + cbn [lookup] in Hl. destruct (Nat.eqb_spec (nextfd u) f) as [<-|]; [|discriminate].
+      cbn [tot]. rewrite wAF_self. lia.
+  - cbn [cntA]. intros; lia.
+Qed.
+
+Lemma add_rx u i c tr : R0 u i ->
+  R0 {| uchans := uchans u; fdt := fdt u ++ [(nextfd u, RR c)]; nextfd := S (nextfd u);
+       arcs := arcs u; anext := anext u;
+       uh := uh u ++ [(unext u, UR (Some (nextfd u)))]; unext := S (unext u); utrace := tr |}
+    {| ik := {| chans := chans (ik i); held := RR c :: held (ik i) |};
+       ih := ih i ++ [(inext i, IR c)]; inext := S (inext i) |}.
+Proof.
+  intros H.
+  destruct (fresh_fd _ _ _ (nextfd u) H (le_n _)) as [Faf Frx].
+  pose proof (fresh_fd_lookup _ _ _ (nextfd u) H (le_n _)) as Ffd.
+  constructor; prj.
+  - apply (r_chans _ _ _ H).
+  - f_equal. apply (r_next _ _ _ H).
+  - apply Forall2_app.
+    + eapply F2_mono; [apply (r_h _ _ _ H)|]. intros x uo io Hin Hr.
+      destruct uo as [a|[f|]|], io as [c'|c'|]; cbn [obj_rel] in *; auto.
+      * destruct Hr as (f & n & Hl & Hf). exists f, n. rewrite !lookup_app, Hf. auto.
+      * rewrite lookup_app, Hr. auto.
+    + constructor; [|constructor]. split; cbn [fst snd]; [apply (r_next _ _ _ H)|].
+      cbn [obj_rel]. rewrite !lookup_app, Ffd. cbn [lookup]. rewrite !Nat.eqb_refl. auto.
+  - intros c'. rewrite map_app, count_occ_app. cbn [map snd count_occ].
+    rewrite <- (r_rr _ _ _ H). destruct (ref_dec (RR c) (RR c')); nlia.
+  - intros c'. cbn [count_occ]. rewrite tot_app. cbn [tot wIS]. rewrite <- (r_rs _ _ _ H).
+    destruct (ref_dec (RR c) (RS c')); [discriminate|lia].
+  - apply NoDup_fst_snoc; [apply (r_fd_nd _ _ _ H)|apply (r_fd_lt _ _ _ H)].
+  - eapply In_snoc_lt; [apply (r_fd_lt _ _ _ H)|lia].
+  - apply (r_arc_nd _ _ _ H).
+  - apply (r_arc_lt _ _ _ H).
+  - intros a f n Hl. cbn [cntA]. rewrite tot_app. cbn [tot wUS].
+    pose proof (r_cnt _ _ _ H _ _ _ Hl) as Hc. cbn [cntA] in Hc. lia.
+  - intros f. cbn [cntF]. rewrite !tot_app. cbn [tot wRX].
+    pose proof (r_dis _ _ _ H f) as Hd. cbn [cntF] in Hd.
+    destruct (Nat.eqb_spec (nextfd u) f) as [<-|]; lia.
+  - intros f c' Hl. rewrite lookup_app in Hl.
+    destruct (lookup (fdt u) f) eqn:E.
+    + injection Hl as ->. apply (r_stray _ _ _ H _ _ E).
+    + cbn [lookup] in Hl. destruct (Nat.eqb (nextfd u) f); discriminate.
+  - cbn [cntA]. intros; lia.
+Qed.
+
+Lemma R_held u i K : R0 u i -> chans K = chans (ik i) ->
+  (forall c, count_occ ref_dec (held K) (RR c) = count_occ ref_dec (held (ik i)) (RR c)) ->
+  (forall c, count_occ ref_dec (held K) (RS c) = count_occ ref_dec (held (ik i)) (RS c)) ->
+  R0 u {| ik := K; ih := ih i; inext := inext i |}.
+Proof.
+  intros H Hc Hrr Hrs. eapply (Rg_ext _ _ _ _ _ H); prj; auto.
+  rewrite Hc. apply (r_chans _ _ _ H).
+Qed.
+
+Lemma install_sim : forall rs u i, R0 u i ->
+  snd (u_install u rs) = snd (i_install (ih i) (inext i) rs) /\
+  R0 (fst (u_install u rs))
+    {| ik := {| chans := chans (ik i); held := rs ++ held (ik i) |};
+       ih := fst (fst (i_install (ih i) (inext i) rs)); inext := snd (fst (i_install (ih i) (inext i) rs)) |}.
+Proof.
+  induction rs as [|[c|c|o] t IH]; intros u i H; cbn [u_install i_install].
+  - cbn [fst snd app]. split; auto. apply (R_held u i); prj; auto.
+  - pose proof (add_tx u i c (utrace u ++ [CInstall (nextfd u)]) H) as H1.
+    specialize (IH _ _ H1). prj_in IH.
+    destruct (u_install _ t) as [u2 out].
+    destruct (i_install _ _ t) as [[hs' n'] out'].
+    cbn [fst snd] in *. destruct IH as [Eo HR]. split.
+    + rewrite (r_next _ _ _ H). now rewrite Eo.
+    + pose proof (R_held _ _ {| chans := chans (ik i); held := (RS c :: t) ++ held (ik i) |} HR) as HR'.
+      prj_in HR'. apply HR'; auto; intros c0; cbn [app count_occ]; rewrite !count_occ_app; cbn [count_occ];
+        destruct (ref_dec (RS c) _); lia.
+  - pose proof (add_rx u i c (utrace u ++ [CInstall (nextfd u)]) H) as H1.
+    specialize (IH _ _ H1). prj_in IH.
+    destruct (u_install _ t) as [u2 out].
+    destruct (i_install _ _ t) as [[hs' n'] out'].
+    cbn [fst snd] in *. destruct IH as [Eo HR]. split.
+    + rewrite (r_next _ _ _ H). now rewrite Eo.
+    + pose proof (R_held _ _ {| chans := chans (ik i); held := (RR c :: t) ++ held (ik i) |} HR) as HR'.
+      prj_in HR'. apply HR'; auto; intros c0; cbn [app count_occ]; rewrite !count_occ_app; cbn [count_occ];
+        destruct (ref_dec (RR c) _); lia.
+  - specialize (IH _ _ H). destruct IH as [Eo HR]. split; auto.
+    pose proof (R_held _ _ {| chans := chans (ik i); held := (RM o :: t) ++ held (ik i) |} HR) as HR'.
+    prj_in HR'. apply HR'; auto.
+Qed.
+
+(* ------------------------------------------------------------------------------------------ *)
+(* ONew                                                                                         *)
+(* ------------------------------------------------------------------------------------------ *)
+Lemma step_new u i : R0 u i ->
+  snd (u_step u ONew) = snd (i_step i ONew) /\ R0 (fst (u_step u ONew)) (fst (i_step i ONew)).
+Proof.
+  intros H. cbn [u_step i_step k_new uk]. cbn [fst snd chans held]. split.
+  - now rewrite (r_next _ _ _ H).
+  - rewrite <- (r_chans _ _ _ H).
+    pose proof (add_tx u i (length (uchans u)) [] H) as H1.
+    pose proof (add_rx _ _ (length (uchans u)) [] H1) as H2. prj_in H2.
+    eapply (Rg_ext _ _ _ _ _ H2); prj; rewrite <- ?app_assoc; cbn [app]; auto.
+Qed.
+
+(* ------------------------------------------------------------------------------------------ *)
+(* changing a positive strong count to another positive strong count                            *)
+(* ------------------------------------------------------------------------------------------ *)
+Lemma arcs_bump (A : list (aid * (fd * nat))) a f n m : lookup A a = Some (f, S n) ->
+  forall g, tot (wAF g) (update A a (f, S m)) = tot (wAF g) A.
+Proof.
+  intros Hl g. pose proof (tot_update (wAF g) A a (f, S n) (f, S m) Hl) as E. cbn [wAF] in E. lia.
+Qed.
+
+Lemma F2_bump (A : list (aid * (fd * nat))) T a f n m : forall us js, Forall2 (hrel A T) us js ->
+  lookup A a = Some (f, S n) -> Forall2 (hrel (update A a (f, S m)) T) us js.
+Proof.
+  intros us js HF Hl. eapply F2_mono; [exact HF|]. intros x uo io _ Hr.
+  destruct uo as [a'|[g|]|], io as [c'|c'|]; cbn [obj_rel] in *; auto.
+  destruct Hr as (f' & n' & Hl' & Hf). destruct (Nat.eq_dec a' a) as [->|Hne].
+  - rewrite Hl in Hl'. injection Hl' as <- <-. exists f, m. split; auto.
+    eapply lookup_update_eq; eauto.
+  - exists f', n'. split; auto. rewrite lookup_update_neq; auto.
+Qed.
+
+Lemma In_update_lt {B} (l : list (nat * B)) h v w n : lookup l h = Some w ->
+  (forall x y, In (x, y) l -> x < n) -> forall x y, In (x, y) (update l h v) -> x < n.
+Proof.
+  intros Hl Hlt x y Hin. apply In_update in Hin. destruct Hin as [Hin|[-> _]]; eauto.
+  apply lookup_In in Hl. eauto.
+Qed.
+
+Ltac prju := cbn [set_arcs set_uh with_k log uchans fdt nextfd arcs anext uh unext utrace ik ih inext chans held].
+Ltac prju_in H := cbn [set_arcs set_uh with_k log uchans fdt nextfd arcs anext uh unext utrace ik ih inext chans held] in H.
+
+(* ------------------------------------------------------------------------------------------ *)
+(* OClone                                                                                       *)
+(* ------------------------------------------------------------------------------------------ *)
+Lemma step_clone u i h : R0 u i ->
+  snd (u_step u (OClone h)) = snd (i_step i (OClone h)) /\
+  R0 (fst (u_step u (OClone h))) (fst (i_step i (OClone h))).
+Proof.
+  intros H. cbn [u_step i_step].
+  pose proof (F2_lookup _ _ _ _ (r_h _ _ _ H) h) as Hl.
+  destruct (lookup (uh u) h) as [uo|] eqn:Eu, (lookup (ih i) h) as [io|] eqn:Ei; try contradiction.
+  2: { split; [reflexivity|exact H]. }
+  destruct uo as [a|[f|]|], io as [c|c|]; cbn [obj_rel] in Hl; try contradiction;
+    try (split; [reflexivity|exact H]).
+  destruct Hl as (f & n & Hla & Hf). rewrite Hla. unfold arc_inc. rewrite Hla. prju. cbn [fst snd].
+  split; [now rewrite (r_next _ _ _ H)|].
+  constructor; unfold k_dup; prju.
+  - apply (r_chans _ _ _ H).
+  - f_equal. apply (r_next _ _ _ H).
+  - apply Forall2_app; [eapply F2_bump; [apply (r_h _ _ _ H)|exact Hla]|].
+    constructor; [|constructor]. split; cbn [fst snd]; [apply (r_next _ _ _ H)|].
+    cbn [obj_rel]. exists f, (S n). split; [eapply lookup_update_eq; eauto|exact Hf].
+  - intros c'. cbn [count_occ]. destruct (ref_dec (RS c) (RR c')); [discriminate|apply (r_rr _ _ _ H)].
+  - intros c'. cbn [count_occ]. rewrite tot_app. cbn [tot wIS]. rewrite <- (r_rs _ _ _ H).
+    destruct (Nat.eqb_spec c c') as [E0|Hne]; destruct (ref_dec (RS c) (RS c')) as [E|E]; try lia; exfalso; congruence.
+  - apply (r_fd_nd _ _ _ H).
+  - apply (r_fd_lt _ _ _ H).
+  - rewrite map_fst_update. apply (r_arc_nd _ _ _ H).
+  - eapply In_update_lt; [exact Hla|apply (r_arc_lt _ _ _ H)].
+  - intros a0 f0 n0 Hl0. cbn [cntA]. rewrite tot_app. cbn [tot wUS].
+    destruct (Nat.eq_dec a0 a) as [->|Hne].
+    + rewrite (lookup_update_eq _ _ _ _ Hla) in Hl0. injection Hl0 as <- <-.
+      pose proof (r_cnt _ _ _ H _ _ _ Hla) as Hc. cbn [cntA] in Hc. rewrite Nat.eqb_refl. lia.
+    + rewrite lookup_update_neq in Hl0 by auto. pose proof (r_cnt _ _ _ H _ _ _ Hl0) as Hc. cbn [cntA] in Hc.
+      destruct (Nat.eqb_spec a a0); [congruence|]. lia.
+  - intros g. rewrite (arcs_bump _ _ _ _ _ Hla). rewrite tot_app. cbn [tot wRX cntF].
+    pose proof (r_dis _ _ _ H g) as Hd. cbn [cntF] in Hd. lia.
+  - intros g c' Hg. rewrite (arcs_bump _ _ _ _ _ Hla). apply (r_stray _ _ _ H g c' Hg).
+  - cbn [cntA]. intros; lia.
+Qed.
+
+(* ------------------------------------------------------------------------------------------ *)
+(* ORecv                                                                                        *)
+(* ------------------------------------------------------------------------------------------ *)
+Lemma rs_pos u i c : R0 u i ->
+  (1 <= count_occ ref_dec (map snd (fdt u)) (RS c) <-> 1 <= count_occ ref_dec (held (ik i)) (RS c)).
+Proof.
+  intros H. split; intros Hc.
+  - apply count_lookup in Hc; [|apply (r_fd_nd _ _ _ H)]. destruct Hc as (f & Hf).
+    pose proof (r_stray _ _ _ H _ _ Hf) as Ht. apply tot_AF_arc in Ht. destruct Ht as (a & n & Hin).
+    apply In_lookup_nd in Hin; [|apply (r_arc_nd _ _ _ H)].
+    pose proof (arc_handle _ _ _ _ _ _ H Hin) as Ht. apply tot_US_handle in Ht. destruct Ht as (x & Hx).
+    destruct (F2_In _ _ _ _ (r_h _ _ _ H) _ _ Hx) as (io & Hio & Hr).
+    destruct io as [c'|c'|]; cbn [obj_rel] in Hr; try contradiction.
+    destruct Hr as (f' & n' & Hl' & Hf').
+    assert (E := eq_trans (eq_sym Hin) Hl'). injection E as <- _.
+    assert (E2 := eq_trans (eq_sym Hf) Hf'). injection E2 as <-.
+    rewrite (r_rs _ _ _ H). eapply handle_tot_IS; eauto.
+  - rewrite (r_rs _ _ _ H) in Hc. apply tot_IS_handle in Hc. destruct Hc as (x & Hx).
+    destruct (F2_In_r _ _ _ _ (r_h _ _ _ H) _ _ Hx) as (uo & _ & Hr).
+    destruct uo as [a|[f|]|]; cbn [obj_rel] in Hr; try contradiction.
+    destruct Hr as (f & n & _ & Hf). eapply lookup_count; eauto.
+Qed.
+
+Lemma refs_rs_zero u i c : R0 u i -> (refs (uk u) (RS c) =? 0) = (refs (ik i) (RS c) =? 0).
+Proof.
+  intros H. pose proof (rs_pos u i c H) as Hp. unfold refs, inflight. cbn [uk chans held].
+  rewrite (r_chans _ _ _ H).
+  destruct (Nat.eqb_spec (count_occ ref_dec (map snd (fdt u)) (RS c) +
+                          count_occ ref_dec (flat_map live_rights (chans (ik i))) (RS c)) 0) as [E1|E1];
+  destruct (Nat.eqb_spec (count_occ ref_dec (held (ik i)) (RS c) +
+                          count_occ ref_dec (flat_map live_rights (chans (ik i))) (RS c)) 0) as [E2|E2];
+  auto; exfalso; lia.
+Qed.
+
+Lemma R0_log u i c : R0 u i -> R0 (log u c) i.
+Proof. intros H. eapply (Rg_ext _ _ _ _ _ H); prju; auto. apply (r_chans _ _ _ H). Qed.
+
+Lemma step_recv u i h : R0 u i ->
+  snd (u_step u (ORecv h)) = snd (i_step i (ORecv h)) /\
+  R0 (fst (u_step u (ORecv h))) (fst (i_step i (ORecv h))).
+Proof.
+  intros H. cbn [u_step i_step].
+  pose proof (F2_lookup _ _ _ _ (r_h _ _ _ H) h) as Hl.
+  destruct (lookup (uh u) h) as [uo|] eqn:Eu, (lookup (ih i) h) as [io|] eqn:Ei; try contradiction.
+  2: { split; [reflexivity|exact H]. }
+  destruct uo as [a|[f|]|], io as [c|c|]; cbn [obj_rel] in Hl; try contradiction;
+    try (split; [reflexivity|exact H]).
+  rewrite Hl. unfold k_recv.
+  assert (Hg : get_chan (uk u) c = get_chan (ik i) c).
+  { apply get_chan_ext. cbn [uk chans]. apply (r_chans _ _ _ H). }
+  rewrite Hg. destruct (q (get_chan (ik i) c)) as [|m rest] eqn:Eq.
+  - rewrite (refs_rs_zero u i c H). destruct (refs (ik i) (RS c) =? 0); cbn [fst snd];
+      (split; [reflexivity|now apply R0_log]).
+  - cbv zeta.
+    set (u1 := log (with_k u (set_nth (uchans u) c {| q := rest; dead := dead (get_chan (ik i) c) |}) (fdt u)) [CRecvmsg f 1]).
+    set (i1 := {| ik := {| chans := set_nth (chans (ik i)) c {| q := rest; dead := dead (get_chan (ik i) c) |};
+                           held := held (ik i) |}; ih := ih i; inext := inext i |}).
+    assert (H1 : R0 u1 i1).
+    { eapply (Rg_ext _ _ _ _ _ H); subst u1 i1; prju; auto. now rewrite (r_chans _ _ _ H). }
+    pose proof (install_sim (m_rights m) u1 i1 H1) as HI. subst i1. prj_in HI.
+    destruct (u_install u1 (m_rights m)) as [u2 out].
+    destruct (i_install (ih i) (inext i) (m_rights m)) as [[hs' n'] out'].
+    cbn [fst snd] in *. destruct HI as [Eo HR]. split; [now rewrite Eo|exact HR].
+Qed.
+
+(* ------------------------------------------------------------------------------------------ *)
+(* releasing what a `channels` vector owns                                                       *)
+(* ------------------------------------------------------------------------------------------ *)
+Lemma drop_fd os u i f c : Rg (OwnFd f :: os) u i -> lookup (fdt u) f = Some (RR c) ->
+  Rg os (sys_close u f) {| ik := k_close (ik i) (RR c); ih := ih i; inext := inext i |}.
+Proof.
+  intros H Hl. unfold sys_close. rewrite Hl. unfold k_close.
+  pose proof (r_dis _ _ _ H f) as Hd0. cbn [cntF] in Hd0. rewrite Nat.eqb_refl in Hd0.
+  assert (Hcnt : 1 <= count_occ ref_dec (held (ik i)) (RR c)).
+  { rewrite <- (r_rr _ _ _ H). eapply lookup_count; eauto. }
+  assert (Hcounts : forall c', count_occ ref_dec (map snd (remove_fd f (fdt u))) (RR c') =
+                               count_occ ref_dec (remove_one (RR c) (held (ik i))) (RR c')).
+  { intros c'. pose proof (count_remove_fd _ _ _ (RR c') Hl).
+    pose proof (count_remove_one (RR c) (held (ik i)) (RR c') Hcnt).
+    pose proof (r_rr _ _ _ H c'). nlia. }
+  constructor; prju; rewrite ?gc_held; cbn [held].
+  - apply gc_chans_ext; cbn [chans held]; [apply (r_chans _ _ _ H)|exact Hcounts].
+  - apply (r_next _ _ _ H).
+  - eapply F2_mono; [apply (r_h _ _ _ H)|]. intros x uo io Hin Hr.
+    destruct uo as [a|[g|]|], io as [c'|c'|]; cbn [obj_rel] in *; auto.
+    + destruct Hr as (f' & n' & Hla & Hf'). exists f', n'. split; auto.
+      rewrite lookup_remove_fd_neq; auto. intros ->.
+      apply lookup_In in Hla. apply arc_tot_AF in Hla. lia.
+    + rewrite lookup_remove_fd_neq; auto. intros ->. apply handle_tot_RX in Hin. lia.
+  - exact Hcounts.
+  - intros c'. rewrite count_remove_one_neq by discriminate. apply (r_rs _ _ _ H).
+  - apply NoDup_remove_fd. apply (r_fd_nd _ _ _ H).
+  - intros g r Hin. apply In_remove_fd in Hin. eapply (r_fd_lt _ _ _ H); eauto.
+  - apply (r_arc_nd _ _ _ H).
+  - apply (r_arc_lt _ _ _ H).
+  - intros a g n Hla. pose proof (r_cnt _ _ _ H _ _ _ Hla) as Hc. cbn [cntA] in Hc. exact Hc.
+  - intros g. pose proof (r_dis _ _ _ H g) as Hd. cbn [cntF] in Hd. destruct (Nat.eqb f g); lia.
+  - intros g c' Hg. destruct (Nat.eq_dec g f) as [->|Hne].
+    + rewrite lookup_remove_fd_eq in Hg by (apply (r_fd_nd _ _ _ H)). discriminate.
+    + rewrite lookup_remove_fd_neq in Hg by auto. apply (r_stray _ _ _ H _ _ Hg).
+  - intros a Ha. apply (r_ownA _ _ _ H). cbn [cntA]. exact Ha.
+Qed.
+
+Lemma pending_arc os u i a : Rg os u i -> 1 <= cntA a os ->
+  exists f n, lookup (arcs u) a = Some (f, S (S n)).
+Proof.
+  intros H Ha. pose proof (r_ownA _ _ _ H _ Ha) as Ht.
+  pose proof Ht as Ht'. apply tot_US_handle in Ht'. destruct Ht' as (x & Hin).
+  destruct (F2_In _ _ _ _ (r_h _ _ _ H) _ _ Hin) as (io & _ & Hr).
+  destruct io as [c|c|]; cbn [obj_rel] in Hr; try contradiction.
+  destruct Hr as (f & n & Hla & _). pose proof (r_cnt _ _ _ H _ _ _ Hla) as Hc.
+  destruct n as [|n]; [lia|]. eauto.
+Qed.
+
+Lemma drop_arc os u i a : Rg (OwnArc a :: os) u i ->
+  Rg os (arc_dec u a) i /\ fdt (arc_dec u a) = fdt u.
+Proof.
+  intros H.
+  assert (Ha : 1 <= cntA a (OwnArc a :: os)) by (cbn [cntA]; rewrite Nat.eqb_refl; lia).
+  destruct (pending_arc _ _ _ _ H Ha) as (f & n & Hla).
+  unfold arc_dec. rewrite Hla. split; [|reflexivity].
+  pose proof (r_cnt _ _ _ H _ _ _ Hla) as Hc0. cbn [cntA] in Hc0. rewrite Nat.eqb_refl in Hc0.
+  constructor; prju.
+  - apply (r_chans _ _ _ H).
+  - apply (r_next _ _ _ H).
+  - eapply F2_bump; [apply (r_h _ _ _ H)|exact Hla].
+  - apply (r_rr _ _ _ H).
+  - apply (r_rs _ _ _ H).
+  - apply (r_fd_nd _ _ _ H).
+  - apply (r_fd_lt _ _ _ H).
+  - rewrite map_fst_update. apply (r_arc_nd _ _ _ H).
+  - eapply In_update_lt; [exact Hla|apply (r_arc_lt _ _ _ H)].
+  - intros a0 f0 n0 Hl0. destruct (Nat.eq_dec a0 a) as [->|Hne].
+    + rewrite (lookup_update_eq _ _ _ _ Hla) in Hl0. injection Hl0 as <- <-. lia.
+    + rewrite lookup_update_neq in Hl0 by auto. pose proof (r_cnt _ _ _ H _ _ _ Hl0) as Hc. cbn [cntA] in Hc.
+      destruct (Nat.eqb_spec a a0); [congruence|]. lia.
+  - intros g. rewrite (arcs_bump _ _ _ _ _ Hla). pose proof (r_dis _ _ _ H g) as Hd. cbn [cntF] in Hd. exact Hd.
+  - intros g c' Hg. rewrite (arcs_bump _ _ _ _ _ Hla). apply (r_stray _ _ _ H g c' Hg).
+  - intros a0 Ha0. apply (r_ownA _ _ _ H). cbn [cntA]. lia.
+Qed.
+
+Definition orel (T : list (fd * ref)) (o : owned) (r : ref) : Prop :=
+  match o, r with
+  | OwnArc _, RS _ => True
+  | OwnFd f, RR c => lookup T f = Some (RR c)
+  | _, _ => False
+  end.
+
+Lemma orel_mono T T' : forall os rs, Forall2 (orel T) os rs ->
+  (forall g, 1 <= cntF g os -> lookup T' g = lookup T g) -> Forall2 (orel T') os rs.
+Proof.
+  induction 1 as [|o r os rs Ho HF IH]; intros Hm; constructor.
+  - destruct o as [a|g], r as [c|c|m]; cbn [orel] in *; auto.
+    rewrite Hm; auto. cbn [cntF]. rewrite Nat.eqb_refl. lia.
+  - apply IH. intros g Hg. apply Hm. destruct o; cbn [cntF]; lia.
+Qed.
+
+Lemma drop_sim : forall os rs u i, Rg os u i -> Forall2 (orel (fdt u)) os rs ->
+  Rg [] (drop_owned u os) {| ik := close_moved (ik i) rs; ih := ih i; inext := inext i |}.
+Proof.
+  induction os as [|o os IH]; intros rs u i H HF; inversion HF as [|o0 r os0 rs' Ho HF']; subst.
+  - cbn [drop_owned close_moved]. destruct i; exact H.
+  - destruct o as [a|f], r as [c|c|m]; cbn [orel] in Ho; try contradiction; cbn [drop_owned close_moved].
+    + destruct (drop_arc _ _ _ _ H) as [H' Hfd]. apply IH; auto. now rewrite Hfd.
+    + pose proof (drop_fd _ _ _ _ _ H Ho) as H'.
+      specialize (IH rs' _ _ H'). prj_in IH. apply IH.
+      eapply orel_mono; [exact HF'|]. intros g Hg.
+      unfold sys_close. rewrite Ho. prju. apply lookup_remove_fd_neq. intros ->.
+      pose proof (r_dis _ _ _ H f) as Hd. cbn [cntF] in Hd. rewrite Nat.eqb_refl in Hd. lia.
+Qed.
+
+(* ------------------------------------------------------------------------------------------ *)
+(* serialising the attachments                                                                  *)
+(* ------------------------------------------------------------------------------------------ *)
+Lemma res_tx P u i x a f n : Rg P u i -> lookup (uh u) x = Some (US a) -> lookup (arcs u) a = Some (f, S n) ->
+  Rg (P ++ [OwnArc a]) (arc_inc u a) i.
+Proof.
+  intros H Hx Hla. unfold arc_inc. rewrite Hla. constructor; prju.
+  - apply (r_chans _ _ _ H).
+  - apply (r_next _ _ _ H).
+  - eapply F2_bump; [apply (r_h _ _ _ H)|exact Hla].
+  - apply (r_rr _ _ _ H).
+  - apply (r_rs _ _ _ H).
+  - apply (r_fd_nd _ _ _ H).
+  - apply (r_fd_lt _ _ _ H).
+  - rewrite map_fst_update. apply (r_arc_nd _ _ _ H).
+  - eapply In_update_lt; [exact Hla|apply (r_arc_lt _ _ _ H)].
+  - intros a0 f0 n0 Hl0. rewrite cntA_app. cbn [cntA]. destruct (Nat.eq_dec a0 a) as [->|Hne].
+    + rewrite (lookup_update_eq _ _ _ _ Hla) in Hl0. injection Hl0 as <- <-.
+      pose proof (r_cnt _ _ _ H _ _ _ Hla) as Hc. rewrite Nat.eqb_refl. lia.
+    + rewrite lookup_update_neq in Hl0 by auto. pose proof (r_cnt _ _ _ H _ _ _ Hl0) as Hc.
+      destruct (Nat.eqb_spec a a0); [congruence|]. lia.
+  - intros g. rewrite (arcs_bump _ _ _ _ _ Hla). rewrite cntF_app. cbn [cntF].
+    pose proof (r_dis _ _ _ H g) as Hd. lia.
+  - intros g c' Hg. rewrite (arcs_bump _ _ _ _ _ Hla). apply (r_stray _ _ _ H g c' Hg).
+  - intros a0 Ha0. rewrite cntA_app in Ha0. cbn [cntA] in Ha0.
+    destruct (Nat.eqb_spec a a0) as [E|Hne].
+    + subst a0. apply lookup_In in Hx. eapply handle_tot_US; eauto.
+    + apply (r_ownA _ _ _ H). lia.
+Qed.
+
+Lemma res_rx_gen v P u i x f c :
+  (forall A T, obj_rel A T v IGone) -> (forall a, wUS a v = 0) -> (forall g, wRX g v = 0) ->
+  Rg P u i -> lookup (uh u) x = Some (UR (Some f)) -> lookup (ih i) x = Some (IR c) ->
+  Rg (P ++ [OwnFd f]) (set_uh u (update (uh u) x v))
+     {| ik := ik i; ih := update (ih i) x IGone; inext := inext i |}.
+Proof.
+  intros Hv Hus Hrx H Hx Hix. constructor; prju.
+  - apply (r_chans _ _ _ H).
+  - apply (r_next _ _ _ H).
+  - apply F2_update; [apply (r_h _ _ _ H)|apply Hv].
+  - apply (r_rr _ _ _ H).
+  - intros c'. rewrite (r_rs _ _ _ H).
+    pose proof (tot_update (wIS c') _ _ _ IGone Hix) as E. cbn [wIS] in E. lia.
+  - apply (r_fd_nd _ _ _ H).
+  - apply (r_fd_lt _ _ _ H).
+  - apply (r_arc_nd _ _ _ H).
+  - apply (r_arc_lt _ _ _ H).
+  - intros a g n Hla. rewrite cntA_app. cbn [cntA].
+    pose proof (tot_update (wUS a) _ _ _ v Hx) as E. rewrite Hus in E. cbn [wUS] in E.
+    pose proof (r_cnt _ _ _ H _ _ _ Hla). lia.
+  - intros g. rewrite cntF_app. cbn [cntF].
+    pose proof (tot_update (wRX g) _ _ _ v Hx) as E. rewrite Hrx in E. cbn [wRX] in E.
+    pose proof (r_dis _ _ _ H g). lia.
+  - apply (r_stray _ _ _ H).
+  - intros a Ha. rewrite cntA_app in Ha. cbn [cntA] in Ha.
+    pose proof (tot_update (wUS a) _ _ _ v Hx) as E. rewrite Hus in E. cbn [wUS] in E.
+    assert (1 <= tot (wUS a) (uh u)) by (apply (r_ownA _ _ _ H); lia). lia.
+Qed.
+
+Lemma res_rx P u i x f c : Rg P u i -> lookup (uh u) x = Some (UR (Some f)) -> lookup (ih i) x = Some (IR c) ->
+  Rg (P ++ [OwnFd f]) (set_uh u (update (uh u) x (UR None)))
+     {| ik := ik i; ih := update (ih i) x IGone; inext := inext i |}.
+Proof. apply res_rx_gen; intros; reflexivity || exact I. Qed.
+
+Lemma resolve_sim : forall atts P u i, Rg P u i ->
+  match u_resolve u atts, i_resolve (ih i) atts with
+  | Some (fs, os, u1), Some (rs, hs') =>
+      Rg (P ++ os) u1 {| ik := ik i; ih := hs'; inext := inext i |} /\
+      fdt u1 = fdt u /\ uchans u1 = uchans u /\
+      refs_of (fdt u) fs = rs /\ Forall2 (orel (fdt u)) os rs
+  | None, None => True
+  | _, _ => False
+  end.
+Proof.
+  induction atts as [|[x|x] r IH]; intros P u i H; cbn [u_resolve i_resolve].
+  - rewrite app_nil_r. split; [destruct i; exact H|]. split; [reflexivity|]. split; [reflexivity|].
+    split; [reflexivity|constructor].
+  - pose proof (F2_lookup _ _ _ _ (r_h _ _ _ H) x) as Hl.
+    destruct (lookup (uh u) x) as [uo|] eqn:Eu, (lookup (ih i) x) as [io|] eqn:Ei; try contradiction; auto.
+    destruct uo as [a|[f|]|], io as [c|c|]; cbn [obj_rel] in Hl; try contradiction; auto.
+    destruct Hl as (f & n & Hla & Hf). rewrite Hla.
+    pose proof (res_tx _ _ _ _ _ _ _ H Eu Hla) as H1. specialize (IH _ _ _ H1).
+    assert (Efd : fdt (arc_inc u a) = fdt u) by (unfold arc_inc; rewrite Hla; reflexivity).
+    assert (Ech : uchans (arc_inc u a) = uchans u) by (unfold arc_inc; rewrite Hla; reflexivity).
+    destruct (u_resolve (arc_inc u a) r) as [[[fs os] u1]|], (i_resolve (ih i) r) as [[rs hs']|]; auto.
+    destruct IH as (HR & E1 & E2 & E3 & E4). rewrite <- app_assoc in HR. cbn [app] in HR.
+    rewrite Efd in *. rewrite Ech in *. split; [exact HR|]. split; [exact E1|]. split; [exact E2|]. split.
+    + cbn [refs_of]. rewrite Hf. now rewrite E3.
+    + constructor; auto. exact I.
+  - pose proof (F2_lookup _ _ _ _ (r_h _ _ _ H) x) as Hl.
+    destruct (lookup (uh u) x) as [uo|] eqn:Eu, (lookup (ih i) x) as [io|] eqn:Ei; try contradiction; auto.
+    destruct uo as [a|[f|]|], io as [c|c|]; cbn [obj_rel] in Hl; try contradiction; auto.
+    pose proof (res_rx _ _ _ _ _ _ H Eu Ei) as H1. specialize (IH _ _ _ H1). prju_in IH.
+    destruct (u_resolve (set_uh u (update (uh u) x (UR None))) r) as [[[fs os] u1]|],
+             (i_resolve (update (ih i) x IGone) r) as [[rs hs']|]; auto.
+    destruct IH as (HR & E1 & E2 & E3 & E4). rewrite <- app_assoc in HR. cbn [app] in HR.
+    split; [exact HR|]. split; [exact E1|]. split; [exact E2|]. split.
+    + cbn [refs_of]. rewrite Hl. now rewrite E3.
+    + constructor; auto.
+Qed.
+
+(* ------------------------------------------------------------------------------------------ *)
+(* OSend                                                                                        *)
+(* ------------------------------------------------------------------------------------------ *)
+Lemma Rg_log os u i c : Rg os u i -> Rg os (log u c) i.
+Proof. intros H. eapply (Rg_ext _ _ _ _ _ H); prju; auto. apply (r_chans _ _ _ H). Qed.
+
+Lemma step_send u i h d atts : R0 u i ->
+  snd (u_step u (OSend h d atts)) = snd (i_step i (OSend h d atts)) /\
+  R0 (fst (u_step u (OSend h d atts))) (fst (i_step i (OSend h d atts))).
+Proof.
+  intros H. cbn [u_step i_step].
+  pose proof (F2_lookup _ _ _ _ (r_h _ _ _ H) h) as Hl.
+  destruct (lookup (uh u) h) as [uo|] eqn:Eu, (lookup (ih i) h) as [io|] eqn:Ei; try contradiction.
+  2: { split; [reflexivity|exact H]. }
+  destruct uo as [a|[f|]|], io as [c|c|]; cbn [obj_rel] in Hl; try contradiction;
+    try (split; [reflexivity|exact H]).
+  destruct Hl as (f & n & Hla & Hf). rewrite Hla, Hf.
+  pose proof (resolve_sim atts [] u i H) as HR.
+  destruct (u_resolve u atts) as [[[fs os] u1]|], (i_resolve (ih i) atts) as [[rs hs']|]; try contradiction.
+  2: { split; [reflexivity|exact H]. }
+  destruct HR as (HR & E1 & E2 & E3 & E4). cbn [app] in HR.
+  replace (refs_of (fdt u1) fs) with rs by (rewrite E1; auto).
+  unfold k_send.
+  assert (Hg : get_chan (uk u1) c = get_chan (ik i) c).
+  { apply get_chan_ext. cbn [uk chans]. rewrite E2. apply (r_chans _ _ _ H). }
+  rewrite Hg. destruct (dead (get_chan (ik i) c)); cbn [fst snd chans held uk]; (split; [reflexivity|]).
+  - pose proof (drop_sim os rs (log u1 [CSendmsg f (length fs) false]) _ (Rg_log _ _ _ _ HR)) as HD.
+    prju_in HD. apply HD. now rewrite E1.
+  - set (m := {| m_data := d; m_rights := rs |}).
+    set (cs := set_nth (uchans u1) c {| q := q (get_chan (ik i) c) ++ [m]; dead := false |}).
+    assert (H2 : Rg os (log (with_k u1 cs (fdt u1)) [CSendmsg f (length fs) true])
+                   {| ik := {| chans := set_nth (chans (ik i)) c {| q := q (get_chan (ik i) c) ++ [m]; dead := false |};
+                               held := held (ik i) |}; ih := hs'; inext := inext i |}).
+    { eapply (Rg_ext _ _ _ _ _ HR); prju; auto. subst cs. rewrite E2. now rewrite (r_chans _ _ _ H). }
+    pose proof (drop_sim os rs _ _ H2) as HD. prju_in HD. apply HD. now rewrite E1.
+Qed.
+
+(* ------------------------------------------------------------------------------------------ *)
+(* ODrop                                                                                        *)
+(* ------------------------------------------------------------------------------------------ *)
+Lemma ind_wIS c c' : ind (RS c) (RS c') = wIS c' (IS c).
+Proof.
+  unfold ind. cbn [wIS]. destruct (ref_dec (RS c) (RS c')) as [E|E], (Nat.eqb_spec c c'); auto; exfalso; congruence.
+Qed.
+
+Lemma step_drop u i h : R0 u i -> k_stable (ik i) ->
+  snd (u_step u (ODrop h)) = snd (i_step i (ODrop h)) /\
+  R0 (fst (u_step u (ODrop h))) (fst (i_step i (ODrop h))).
+Proof.
+  intros H St. cbn [u_step i_step].
+  pose proof (F2_lookup _ _ _ _ (r_h _ _ _ H) h) as Hl.
+  destruct (lookup (uh u) h) as [uo|] eqn:Eu, (lookup (ih i) h) as [io|] eqn:Ei; try contradiction.
+  2: { split; [reflexivity|exact H]. }
+  destruct uo as [a|[f|]|], io as [c|c|]; cbn [obj_rel] in Hl; try contradiction;
+    try (split; [reflexivity|exact H]); cbn [fst snd]; (split; [reflexivity|]).
+  - (* a sender handle *)
+    destruct Hl as (f & n & Hla & Hf).
+    assert (Hcnt : 1 <= count_occ ref_dec (held (ik i)) (RS c)).
+    { rewrite (r_rs _ _ _ H). apply lookup_In in Ei. eapply handle_tot_IS; eauto. }
+    assert (Hrs : forall c', count_occ ref_dec (remove_one (RS c) (held (ik i))) (RS c') =
+                             tot (wIS c') (update (ih i) h IGone)).
+    { intros c'. pose proof (count_remove_one (RS c) (held (ik i)) (RS c') Hcnt) as E1.
+      rewrite ind_wIS in E1. pose proof (tot_update (wIS c') _ _ _ IGone Ei) as E2. cbn [wIS] in E2.
+      pose proof (r_rs _ _ _ H c'). cbn [wIS] in E1. lia. }
+    assert (Hus : forall a0, tot (wUS a0) (update (uh u) h UGone) + wUS a0 (US a) = tot (wUS a0) (uh u)).
+    { intros a0. pose proof (tot_update (wUS a0) _ _ _ UGone Eu) as E. cbn [wUS] in E. cbn [wUS]. lia. }
+    assert (Hrx : forall g, tot (wRX g) (update (uh u) h UGone) = tot (wRX g) (uh u)).
+    { intros g. pose proof (tot_update (wRX g) _ _ _ UGone Eu) as E. cbn [wRX] in E. lia. }
+    pose proof (F2_update _ _ _ _ (r_h _ _ _ H) h UGone IGone I) as HF.
+    pose proof (r_cnt _ _ _ H _ _ _ Hla) as Hc0. cbn [cntA] in Hc0.
+    pose proof (Hus a) as Husa. rewrite wUS_self in Husa.
+    unfold arc_dec. prju. rewrite Hla. destruct n as [|n].
+    + (* last handle of the arc: the descriptor is closed *)
+      unfold sys_close. prju. rewrite Hf. unfold k_close.
+      pose proof (tot_update (wAF f) _ _ _ (f, 0) Hla) as Eaf. rewrite wAF_self in Eaf. cbn [wAF] in Eaf.
+      pose proof (r_dis _ _ _ H f) as Hdf. cbn [cntF] in Hdf.
+      assert (Hcounts : forall c', count_occ ref_dec (map snd (remove_fd f (fdt u))) (RR c') =
+                                   count_occ ref_dec (remove_one (RS c) (held (ik i))) (RR c')).
+      { intros c'. pose proof (count_remove_fd _ _ _ (RR c') Hf) as E1. unfold ind in E1.
+        destruct (ref_dec (RS c) (RR c')); [discriminate|].
+        rewrite count_remove_one_neq by discriminate. pose proof (r_rr _ _ _ H c'). nlia. }
+      constructor; prju; rewrite ?gc_held; cbn [held].
+      * apply gc_chans_ext; cbn [chans held]; [apply (r_chans _ _ _ H)|exact Hcounts].
+      * apply (r_next _ _ _ H).
+      * eapply F2_mono; [exact HF|]. intros x uo io Hin Hr.
+        destruct uo as [a'|[g|]|], io as [c'|c'|]; cbn [obj_rel] in *; auto.
+        -- destruct Hr as (f' & n' & Hla' & Hf').
+           assert (Hne : a' <> a).
+           { intros ->. apply handle_tot_US in Hin. lia. }
+           exists f', n'. split; [rewrite lookup_update_neq; auto|].
+           rewrite lookup_remove_fd_neq; auto. intros ->.
+           assert (Hin' : In (a', (f, S n')) (update (arcs u) a (f, 0))).
+           { apply lookup_In. rewrite lookup_update_neq; auto. }
+           apply arc_tot_AF in Hin'. lia.
+        -- rewrite lookup_remove_fd_neq; auto. intros ->.
+           apply handle_tot_RX in Hin. rewrite Hrx in Hin.
+           apply lookup_In in Hla. apply arc_tot_AF in Hla. lia.
+      * exact Hcounts.
+      * exact Hrs.
+      * apply NoDup_remove_fd. apply (r_fd_nd _ _ _ H).
+      * intros g r Hin. apply In_remove_fd in Hin. eapply (r_fd_lt _ _ _ H); eauto.
+      * rewrite map_fst_update. apply (r_arc_nd _ _ _ H).
+      * eapply In_update_lt; [exact Hla|apply (r_arc_lt _ _ _ H)].
+      * intros a0 f0 n0 Hl0. cbn [cntA]. destruct (Nat.eq_dec a0 a) as [->|Hne].
+        -- rewrite (lookup_update_eq _ _ _ _ Hla) in Hl0. injection Hl0 as <- <-. lia.
+        -- rewrite lookup_update_neq in Hl0 by auto. pose proof (r_cnt _ _ _ H _ _ _ Hl0) as Hc. cbn [cntA] in Hc.
+           pose proof (Hus a0) as E. cbn [wUS] in E. destruct (Nat.eqb_spec a a0); [congruence|]. lia.
+      * intros g. cbn [cntF]. rewrite Hrx.
+        pose proof (tot_update (wAF g) _ _ _ (f, 0) Hla) as E. cbn [wAF] in E.
+        pose proof (r_dis _ _ _ H g) as Hd. cbn [cntF] in Hd. lia.
+      * intros g c' Hg. destruct (Nat.eq_dec g f) as [->|Hne].
+        -- rewrite lookup_remove_fd_eq in Hg by (apply (r_fd_nd _ _ _ H)). discriminate.
+        -- rewrite lookup_remove_fd_neq in Hg by auto. pose proof (r_stray _ _ _ H _ _ Hg) as Hs.
+           pose proof (tot_update (wAF g) _ _ _ (f, 0) Hla) as E. cbn [wAF] in E.
+           destruct (Nat.eqb_spec f g); [congruence|]. lia.
+      * cbn [cntA]. intros; lia.
+    + (* other handles remain: only the count changes *)
+      unfold k_close.
+      constructor; prju; rewrite ?gc_held; cbn [held].
+      * rewrite (r_chans _ _ _ H).
+        rewrite <- (gc_fixpoint _ St) at 1. apply gc_chans_ext; cbn [chans held]; auto.
+        intros c'. rewrite count_remove_one_neq by discriminate. reflexivity.
+      * apply (r_next _ _ _ H).
+      * eapply F2_bump; [exact HF|exact Hla].
+      * intros c'. rewrite count_remove_one_neq by discriminate. apply (r_rr _ _ _ H).
+      * exact Hrs.
+      * apply (r_fd_nd _ _ _ H).
+      * apply (r_fd_lt _ _ _ H).
+      * rewrite map_fst_update. apply (r_arc_nd _ _ _ H).
+      * eapply In_update_lt; [exact Hla|apply (r_arc_lt _ _ _ H)].
+      * intros a0 f0 n0 Hl0. cbn [cntA]. destruct (Nat.eq_dec a0 a) as [->|Hne].
+        -- rewrite (lookup_update_eq _ _ _ _ Hla) in Hl0. injection Hl0 as <- <-. lia.
+        -- rewrite lookup_update_neq in Hl0 by auto. pose proof (r_cnt _ _ _ H _ _ _ Hl0) as Hc. cbn [cntA] in Hc.
+           pose proof (Hus a0) as E. cbn [wUS] in E. destruct (Nat.eqb_spec a a0); [congruence|]. lia.
+      * intros g. rewrite (arcs_bump _ _ _ _ _ Hla). rewrite Hrx. apply (r_dis _ _ _ H g).
+      * intros g c' Hg. rewrite (arcs_bump _ _ _ _ _ Hla). apply (r_stray _ _ _ H g c' Hg).
+      * cbn [cntA]. intros; lia.
+  - (* a receiver handle *)
+    assert (H1 : Rg ([] ++ [OwnFd f]) (set_uh u (update (uh u) h UGone))
+                    {| ik := ik i; ih := update (ih i) h IGone; inext := inext i |}).
+    { apply (res_rx_gen UGone [] u i h f c); auto; intros; reflexivity || exact I. }
+    cbn [app] in H1.
+    assert (Hf' : lookup (fdt (set_uh u (update (uh u) h UGone))) f = Some (RR c)) by (prju; exact Hl).
+    pose proof (drop_fd _ _ _ _ _ H1 Hf') as HD. prju_in HD. exact HD.
+Qed.
+
+(* ------------------------------------------------------------------------------------------ *)
+(* stability of the ideal kernel state along a run                                              *)
+(* ------------------------------------------------------------------------------------------ *)
+Lemma k_init_stable : k_stable k_init.
+Proof. intros c ch Hn. destruct c; discriminate. Qed.
+
+Lemma i_step_stable : forall i o, k_stable (ik i) -> k_stable (ik (fst (i_step i o))).
+Proof.
+  intros i o St. destruct o as [|h|h|h d atts|h]; cbn [i_step].
+  - cbn [k_new fst ik]. apply k_new_stable. exact St.
+  - destruct (lookup (ih i) h) as [[c|c|]|]; cbn [fst ik]; auto.
+  - destruct (lookup (ih i) h) as [[c|c|]|]; cbn [fst ik]; auto; unfold k_close; apply gc_stable.
+  - destruct (lookup (ih i) h) as [[c|c|]|]; cbn [fst ik]; auto.
+    destruct (i_resolve (ih i) atts) as [[rs hs']|]; cbn [fst ik]; auto.
+    destruct (k_send (ik i) c {| m_data := d; m_rights := rs |}) as [k'|] eqn:Es; cbn [fst ik];
+      apply close_moved_stable; auto.
+    eapply k_send_stable; eauto.
+  - destruct (lookup (ih i) h) as [[c|c|]|]; cbn [fst ik]; auto.
+    destruct (k_recv (ik i) c) as [m k'| |] eqn:Er; cbn [fst ik]; auto.
+    destruct (i_install (ih i) (inext i) (m_rights m)) as [[hs' n'] out]. cbn [fst ik].
+    eapply k_recv_stable; eauto.
+Qed.
+
+(* ------------------------------------------------------------------------------------------ *)
+(* the simulation                                                                               *)
+(* ------------------------------------------------------------------------------------------ *)
+Definition R (u : ust) (i : ist) : Prop := Rg [] u i /\ k_stable (ik i).
+
+Theorem sim_init : R u_init i_init.
+Proof.
+  split; [|apply k_init_stable].
+  constructor; cbn; auto; try (intros; contradiction); try (intros; discriminate); try constructor;
+    try (intros; lia).
+Qed.
+
+Theorem sim_step : forall u i o, R u i ->
+  snd (u_step u o) = snd (i_step i o) /\ R (fst (u_step u o)) (fst (i_step i o)).
+Proof.
+  intros u i o [H St].
+  assert (HS : snd (u_step u o) = snd (i_step i o) /\ R0 (fst (u_step u o)) (fst (i_step i o))).
+  { destruct o as [|h|h|h d atts|h].
+    - now apply step_new.
+    - now apply step_clone.
+    - now apply step_drop.
+    - now apply step_send.
+    - now apply step_recv. }
+  destruct HS as [Ho HR]. split; [exact Ho|]. split; [exact HR|]. now apply i_step_stable.
+Qed.
+
+Theorem sim_run : forall ops u i, R u i ->
+  snd (u_run u ops) = snd (i_run i ops) /\ R (fst (u_run u ops)) (fst (i_run i ops)).
+Proof.
+  induction ops as [|o ops IH]; intros u i H; cbn [u_run i_run].
+  - split; [reflexivity|exact H].
+  - destruct (sim_step u i o H) as [Ho HR].
+    destruct (u_step u o) as [u' out], (i_step i o) as [i' out']. cbn [fst snd] in Ho, HR.
+    destruct (IH u' i' HR) as [Hos HR'].
+    destruct (u_run u' ops) as [u'' outs], (i_run i' ops) as [i'' outs']. cbn [fst snd] in *.
+    split; [congruence|exact HR'].
+Qed.
+
+(* C03 / C19: the unix back end gives exactly the answers of the ideal channel model *)
+Theorem unix_refines_ideal : forall ops, snd (u_run u_init ops) = snd (i_run i_init ops).
+Proof. intros ops. exact (proj1 (sim_run ops u_init i_init sim_init)). Qed.
+
+Print Assumptions sim_init.
+Print Assumptions sim_step.
+Print Assumptions sim_run.
+Print Assumptions unix_refines_ideal.
